@@ -1446,12 +1446,22 @@ impl World45<'_> {
     }
 
     fn push(&mut self, rng: &mut Rng, step: usize) -> CaseResult<()> {
+        // A quarter of the pushes meet a concurrent pusher on the server (see
+        // below); give those several bookmarks to push, so that one of them
+        // can be refused by the remote while the others go through.
+        let want_hook = rng.chance(1, 4);
+        if want_hook {
+            for _ in 0..2 {
+                self.a_local_op(rng)?;
+            }
+        }
         let (locals, records, remote_pre) = self.observe()?;
         let local_of = |n: &str| locals.get(n).cloned().unwrap_or_else(|| vec![None]);
         let rec_of = |m: &BTreeMap<String, RemoteRec>, n: &str| m.get(n).cloned().unwrap_or(RemoteRec { tgt: vec![None], tracked: false });
         // names whose local bookmark differs from jj's record of the remote
         let dirty: Vec<String> = self.names.iter().filter(|n| local_of(n) != rec_of(&records, n).tgt).cloned().collect();
-        let (args, explicit): (Vec<String>, Vec<String>) = match rng.weighted(&[60, 20, 10, 10]) {
+        let variant_weights: [usize; 4] = if want_hook && dirty.len() >= 2 { [15, 20, 5, 60] } else { [60, 20, 10, 10] };
+        let (args, explicit): (Vec<String>, Vec<String>) = match rng.weighted(&variant_weights) {
             0 => {
                 let name = if !dirty.is_empty() && rng.chance(5, 6) { rng.pick(&dirty).clone() } else { rng.pick(&self.names).clone() };
                 (vec!["git".into(), "push".into(), "--bookmark".into(), name.clone()], vec![name])
@@ -1462,12 +1472,59 @@ impl World45<'_> {
         };
         let variant = args[2..].join(" ");
         // interference while the push is in flight
-        let in_flight = if rng.chance(2, 5) {
+        let in_flight = if !want_hook && rng.chance(8, 15) {
             let prefer: Vec<String> = if explicit.is_empty() { dirty.clone() } else { explicit.clone() };
             Some(self.gen_b_action(rng, &prefer, &remote_pre))
         } else {
             None
         };
+        // A concurrent pusher that wins the race on the server: an `update`
+        // hook of the bare repository moves (or deletes) the branch after
+        // git's client-side lease check has passed, so the remote itself
+        // refuses jj's update ("remote rejected").
+        let hook_file = self.bare.join("hooks").join("update");
+        let hook_marker = self.env.root.join(format!("hook-fired-{step}"));
+        std::fs::remove_file(&hook_marker).ok();
+        let in_hook: Option<BAction> = if want_hook {
+            let prefer: Vec<String> = if explicit.is_empty() { dirty.clone() } else { explicit.clone() };
+            let name = if !prefer.is_empty() { rng.pick(&prefer).clone() } else { rng.pick(&self.names).clone() };
+            let t = local_of(&name);
+            let mut candidates: Vec<Option<Id>> = self.b_pool.iter().map(|(_, id)| Some(id.clone())).collect();
+            candidates.extend(remote_pre.values().cloned().map(Some));
+            if remote_pre.contains_key(&name) {
+                candidates.push(None);
+            }
+            candidates.retain(|c| remote_pre.get(&name) != c.as_ref() && !(resolved(&t) && t[0] == *c));
+            if candidates.is_empty() {
+                None
+            } else {
+                Some(match rng.pick(&candidates).clone() {
+                    Some(id) => BAction::Set { name, id, via_push: false },
+                    None => BAction::Delete { name, via_push: false },
+                })
+            }
+        } else {
+            None
+        };
+        if let Some(action) = &in_hook {
+            let (name, cmd) = match action {
+                BAction::Set { name, id, .. } => (name, format!("git update-ref refs/heads/{name} {id}")),
+                BAction::Delete { name, .. } => (name, format!("git update-ref -d refs/heads/{name}")),
+            };
+            let script = format!(
+                "#!/bin/sh\nif [ \"$1\" = \"refs/heads/{name}\" ]; then\n  {cmd} && : > '{}'\nfi\nexit 0\n",
+                hook_marker.display()
+            );
+            std::fs::create_dir_all(hook_file.parent().unwrap()).ok();
+            if std::fs::write(&hook_file, script).is_err() {
+                return harness("cannot write the update hook".to_owned());
+            }
+            #[cfg(unix)]
+            {
+                use std::os::unix::fs::PermissionsExt as _;
+                std::fs::set_permissions(&hook_file, std::fs::Permissions::from_mode(0o755)).ok();
+            }
+        }
         let r0_file = self.env.root.join(format!("r0-{step}"));
         std::fs::remove_file(&r0_file).ok();
         let dump = format!("git -C '{}' for-each-ref '{REF_FORMAT}' refs/heads > '{}.tmp' && mv '{}.tmp' '{}'",
@@ -1481,15 +1538,35 @@ impl World45<'_> {
         let a = self.a.clone();
         let out = jj_any(&self.env, &a, &argv, &[("JJ_VERIF_RUN_AT", &run_at)])?;
         let git_ran = r0_file.exists();
-        let r0: BTreeMap<String, Id> = if git_ran {
+        let mut r0: BTreeMap<String, Id> = if git_ran {
             parse_ref_lines(&std::fs::read_to_string(&r0_file).unwrap_or_default())
         } else {
             remote_pre.clone()
         };
+        if in_hook.is_some() {
+            std::fs::remove_file(&hook_file).ok();
+        }
+        // The position the remote had when it decided about jj's update.
+        let hook_fired = hook_marker.exists();
+        if hook_fired {
+            match in_hook.as_ref().unwrap() {
+                BAction::Set { name, id, .. } => {
+                    r0.insert(name.clone(), id.clone());
+                }
+                BAction::Delete { name, .. } => {
+                    r0.remove(name);
+                }
+            }
+        }
         let (locals_post, records_post, remote_post) = self.observe()?;
         cross_check_heads(&self.env, &self.bare)?;
-        let in_flight_desc = match (&in_flight, git_ran) {
-            (Some(a), true) => format!(" while {}", self.describe_b(a)),
+        let in_flight_desc = match (&in_flight, &in_hook, git_ran) {
+            (Some(a), _, true) => format!(" while {}", self.describe_b(a)),
+            (_, Some(a), true) => format!(
+                " with an update hook on the remote in which {}{}",
+                self.describe_b(a),
+                if hook_fired { " (fired)" } else { " (not reached)" }
+            ),
             _ => String::new(),
         };
         self.log.push(format!(
@@ -1503,6 +1580,9 @@ impl World45<'_> {
             self.ctx.count("push.git_ran");
             if in_flight.is_some() {
                 self.ctx.count("push.in_flight_update_by_b");
+            }
+            if in_hook.is_some() {
+                self.ctx.count(if hook_fired { "push.update_hook_by_b.fired" } else { "push.update_hook_by_b.not_reached" });
             }
         } else {
             self.ctx.count("push.git_not_run");
@@ -1601,6 +1681,11 @@ impl World45<'_> {
                 } else {
                     vensure!(e_post == e, "stale.remote_record_changed", "{}", detail(self));
                     if attempted {
+                        if hook_fired && in_hook.as_ref().is_some_and(|a| match a {
+                            BAction::Set { name: n, .. } | BAction::Delete { name: n, .. } => n == name,
+                        }) {
+                            self.ctx.count("push.rejected.by_remote_after_lease_check");
+                        }
                         self.ctx.count(if in_flight.as_ref().is_some_and(|a| match a {
                             BAction::Set { name: n, .. } | BAction::Delete { name: n, .. } => n == name,
                         }) {
@@ -1709,7 +1794,9 @@ pub fn run_c45(ctx: &Ctx) -> i32 {
          names; 11 (quick) / 24 (thorough) random steps of A's local bookmark set/delete, B's updates of the \
          remote (force push / delete push from B, or update-ref in the bare repository), `jj git fetch`, and \
          `jj git push --bookmark <b>` / `--all` / `--deleted` / `--all --deleted`, 40% of the pushes with an \
-         update by B executed at the `git.push.before_spawn` hook (while the push is in flight); the remote's \
+         update by B executed at the `git.push.before_spawn` hook (while the push is in flight), 25% with an \
+         `update` hook on the remote in which B moves or deletes the branch after git's client-side lease check \
+         (the remote itself then refuses the update); the remote's \
          refs are dumped at that hook (R0), before and after the command; jj's local bookmarks and `@origin` \
          records are read before and after with the read-only view reader. Non-trivial: at least one push for \
          which jj spawned `git push`. Distinct: by the executed step log.",
